@@ -8,7 +8,7 @@ import ast
 import hashlib
 import os
 from dataclasses import dataclass, field
-from typing import Any, Iterator
+from typing import Any, Callable, Iterator
 
 REPO = os.environ.get("OCTAVE_REPO", "/repo")
 PKG_REL = os.path.join("src", "octave_mcp")
@@ -490,3 +490,53 @@ def norm(node: ast.AST) -> str:
         s = type(node).__name__
     s = " ".join(s.split())
     return s if len(s) <= 160 else s[:157] + "..."
+
+
+def normalise_locals(fi: "FuncInfo", specs: list[tuple[str, Callable[[ast.AST], bool]]], loop_specs: list[tuple[tuple[str, ...], Callable[[ast.AST], bool]]] | None = None) -> "FuncInfo":
+    """alpha-normalisation for rules that read a function by the names of its locals: returns a copy of `fi` in which a local
+    whose (single) definition satisfies a spec predicate is renamed to the spec's expected name, and the targets of a `for`
+    loop whose iterable satisfies a loop spec are renamed to the expected names. The rules then match the normalised copy, so
+    a consistent renaming of locals in the repository does not change what they see. Nothing is renamed when the expected
+    name is already in use for something else."""
+    import copy
+
+    node = copy.deepcopy(fi.node)
+    for parent in ast.walk(node):
+        for child in ast.iter_child_nodes(parent):
+            child._parent = parent  # type: ignore[attr-defined]
+    node._parent = None  # type: ignore[attr-defined]
+
+    def rename(old: str, new: str) -> None:
+        if old == new:
+            return
+        if any(isinstance(n, ast.Name) and n.id == new for n in ast.walk(node)) or any(isinstance(n, ast.arg) and n.arg == new for n in ast.walk(node)):
+            return
+        for n in ast.walk(node):
+            if isinstance(n, ast.Name) and n.id == old:
+                n.id = new
+
+    for expected, pred in specs:
+        for n in list(walk_no_nested(node)):
+            if isinstance(n, (ast.Assign, ast.AnnAssign)):
+                tg = n.targets[0] if isinstance(n, ast.Assign) and len(n.targets) == 1 else (n.target if isinstance(n, ast.AnnAssign) else None)
+                if isinstance(tg, ast.Name) and n.value is not None and tg.id != expected:
+                    try:
+                        if pred(n.value):
+                            rename(tg.id, expected)
+                            break
+                    except Exception:  # noqa: BLE001
+                        pass
+    for names, pred in loop_specs or []:
+        for n in list(walk_no_nested(node)):
+            if isinstance(n, (ast.For, ast.AsyncFor)):
+                try:
+                    hit = pred(n.iter)
+                except Exception:  # noqa: BLE001
+                    hit = False
+                if hit:
+                    elts = n.target.elts if isinstance(n.target, ast.Tuple) else [n.target]
+                    for e, want in zip(elts, names):
+                        if isinstance(e, ast.Name):
+                            rename(e.id, want)
+                    break
+    return FuncInfo(fi.module, fi.qualname, node, fi.cls, fi.parent_func)
